@@ -11,7 +11,16 @@ import (
 func main() {
 	repo := flag.String("repo", "/repo", "repository root")
 	out := flag.String("out", "", "output directory for generated Lean files")
+	dump := flag.Bool("dump-lua-names", false, "print the locals of every Lua script in declaration order (Go source of lua_names.go) and exit")
 	flag.Parse()
+	if *dump {
+		if _, err := genLuaScripts(*repo); err != nil {
+			fmt.Fprintln(os.Stderr, err)
+			os.Exit(1)
+		}
+		dumpLuaNames()
+		return
+	}
 	if *out == "" {
 		fmt.Fprintln(os.Stderr, "missing -out")
 		os.Exit(2)
